@@ -569,6 +569,16 @@ impl Built {
         self.world.regions.sort_by_key(|r| r.start);
         start
     }
+
+    /// Something mapped below the main executable (a fixed low mapping, MAP_32BIT memory, a
+    /// program started through an explicit loader). The writer moves the module that holds the
+    /// entry point to the front of its mapping list, which is then no longer in address order.
+    pub fn add_low(&mut self, len: u64, perms: &str, seed: u64, slot: u64) -> u64 {
+        let start = 0x1000_0000 + slot * 0x100_0000;
+        self.world.regions.push(RegionSpec { start, len, perms: perms.into(), offset: 0, inode: 0, name: B(Vec::new()), deleted: false, content: Content::Pattern(seed) });
+        self.world.regions.sort_by_key(|r| r.start);
+        start
+    }
 }
 
 /// Make the name the linker list holds for the first library invalid UTF-8 (a library loaded
